@@ -30,6 +30,8 @@ type unit struct {
 	recvN   string
 	params  []string
 	boundTo types.Object // local variable a literal is bound to
+	argCall *ast.CallExpr // literal passed as an argument: the call …
+	argIdx  int           // … and its position
 }
 
 type callSite struct {
@@ -231,6 +233,18 @@ func (la *LockAnalysis) classifyRoots() {
 		switch use {
 		case "call", "arg":
 			u.inherit = true
+			if use == "arg" {
+				ast.Inspect(u.parent.body, func(n ast.Node) bool {
+					if c, ok := n.(*ast.CallExpr); ok {
+						for i, a := range c.Args {
+							if unparen(a) == ast.Expr(u.lit) {
+								u.argCall, u.argIdx = c, i
+							}
+						}
+					}
+					return true
+				})
+			}
 		default: // go, defer, return, store, unknown
 			u.root = true
 		}
@@ -417,6 +431,9 @@ func (la *LockAnalysis) solve() {
 						for _, k := range lockFactsOf(p.sol.Before[n]) {
 							ne[k] = true
 						}
+						for _, k := range la.callbackLocks(u) {
+							ne[k] = true
+						}
 						any = true
 					}
 				}
@@ -467,6 +484,125 @@ func (la *LockAnalysis) solve() {
 			la.solveUnit(u)
 		}
 	}
+}
+
+// callbackLocks: a literal handed to a repository function that calls it back
+// (`s.withLock(func() { … })`) also runs under the locks that function holds at
+// every call of the parameter, named in the namespace of the literal's creator.
+func (la *LockAnalysis) callbackLocks(u *unit) []string {
+	if u.argCall == nil || u.parent == nil {
+		return nil
+	}
+	info := u.pkg.TypesInfo
+	cal := callee(info, u.argCall)
+	if cal == nil {
+		return nil
+	}
+	t := la.byFunc[cal]
+	if t == nil || !t.known || t.sol == nil || u.argIdx >= len(t.params) {
+		return nil
+	}
+	// the parameter object
+	var pobj types.Object
+	k := 0
+	for _, fl := range t.fi.Decl.Type.Params.List {
+		for _, nm := range fl.Names {
+			if k == u.argIdx {
+				pobj = t.pkg.TypesInfo.Defs[nm]
+			}
+			k++
+		}
+	}
+	if pobj == nil {
+		return nil
+	}
+	var common Facts
+	for _, n := range t.flow.Nodes() {
+		switch n.(type) {
+		case *ast.GoStmt, *ast.DeferStmt:
+			continue
+		}
+		for _, c := range callsIn(n, false) {
+			id, ok := unparen(c.Fun).(*ast.Ident)
+			if !ok || t.pkg.TypesInfo.Uses[id] != pobj {
+				continue
+			}
+			held := Facts{}
+			for _, f := range lockFactsOf(t.sol.Before[n]) {
+				held[f] = true
+			}
+			if common == nil {
+				common = held
+			} else {
+				for f := range common {
+					if !held[f] {
+						delete(common, f)
+					}
+				}
+			}
+		}
+	}
+	// any other use of the parameter (stored, passed on, called in a goroutine): no claim
+	uses := 0
+	ast.Inspect(t.body, func(n ast.Node) bool {
+		if id, ok := n.(*ast.Ident); ok && t.pkg.TypesInfo.Uses[id] == pobj {
+			uses++
+		}
+		return true
+	})
+	calls := 0
+	ast.Inspect(t.body, func(n ast.Node) bool {
+		switch x := n.(type) {
+		case *ast.GoStmt, *ast.DeferStmt, *ast.FuncLit:
+			_ = x
+			return false
+		case *ast.CallExpr:
+			if id, ok := unparen(x.Fun).(*ast.Ident); ok && t.pkg.TypesInfo.Uses[id] == pobj {
+				calls++
+			}
+		}
+		return true
+	})
+	if common == nil || uses != calls {
+		return nil
+	}
+	var out []string
+	recv, _, isM := methodCall(u.argCall)
+	for f := range common {
+		rest := f[2:]
+		i := strings.LastIndexByte(rest, ':')
+		path, mode := rest[:i], rest[i:]
+		back := func(from, to string) (string, bool) {
+			if from == "" || from == "_" {
+				return "", false
+			}
+			if path == from {
+				return to, true
+			}
+			if strings.HasPrefix(path, from+".") {
+				return to + path[len(from):], true
+			}
+			return "", false
+		}
+		np, ok := "", false
+		if isM && t.recvN != "" {
+			np, ok = back(t.recvN, exprStr(recv))
+		}
+		for i, a := range u.argCall.Args {
+			if !ok && i < len(t.params) && i != u.argIdx {
+				np, ok = back(t.params[i], exprStr(a))
+			}
+		}
+		if !ok {
+			continue
+		}
+		if v := la.lockVar[path]; v != nil {
+			la.lockVar[np] = v
+		}
+		out = append(out, "L:"+np+mode)
+	}
+	sort.Strings(out)
+	return out
 }
 
 // HeldAt returns the locks that are certainly held just before CFG node n.
